@@ -281,6 +281,33 @@ class Check(PropertyCheck):
             for other in (None, 0, "x", (1, 2), [x], object()):
                 if x == other:
                     res.append(("foreign", f"{type(x).__name__} compares equal to {other!r}"))
+            # across the library's own kinds (a scheduled operation and its operation, a schedule and its instance, ...): whatever ==
+            # says it says both ways, and two objects of one kind that differ are not both equal to a third
+            import jsl
+            parts = []
+            for o in (x, y):
+                parts.append(o)
+                if isinstance(o, jsl.ScheduledOperation):
+                    parts.append(o.operation)
+                if isinstance(o, jsl.Schedule):
+                    parts += [o.instance] + [sop for ms in o.schedule for sop in ms][:2]
+                if isinstance(o, jsl.JobShopInstance) and o.jobs and o.jobs[0]:
+                    parts.append(o.jobs[0][0])
+            for a in parts:
+                for b in parts:
+                    if type(a) is type(b):
+                        continue
+                    try:
+                        ab, ba = a == b, b == a
+                    except Exception as e:  # pylint: disable=broad-except
+                        res.append(("foreign", f"comparing a {type(a).__name__} with a {type(b).__name__} raised {type(e).__name__}"))
+                        continue
+                    if ab != ba:
+                        res.append(("symmetry", f"{type(a).__name__} == {type(b).__name__} is {ab}, the other way round {ba}"))
+                    for c in parts:
+                        if type(c) is type(a) and ab and (c == b) and self.content(a) != self.content(c):
+                            res.append(("transitivity", f"two different {type(a).__name__}s are both equal to one {type(b).__name__}"))
+            res = res[:3]
         return res
 
     def content(self, o):
